@@ -99,6 +99,8 @@ fn main() {
             let out = args.get(5).map(|s| s.as_str()).unwrap_or("/dev/null");
             match args.get(2).map(|s| s.as_str()) {
                 Some("C05") => props::c05::deepruns_main(tier, seed, out),
+                Some("C08") => props::c08::deepruns_main(tier, seed, out),
+                Some("C09") => props::c09::deepruns_main(tier, seed, out),
                 Some("C15") => props::c15::deepruns_main(tier, seed, out),
                 _ => props::c01::deepruns_main(tier, seed, out),
             }
